@@ -641,7 +641,8 @@ func c04BatchResultIsBadgersResult(p *Prog, r *Report, rule string) {
 		return
 	}
 	info := fi.Pkg.TypesInfo
-	f := p.FlatOf(fi)
+	// (the Badger call may sit in a helper of the manager shared with the read paths: m.standalone(readWrite, fn))
+	f := p.FlatInl(fi)
 	isUpdate := func(c *ast.CallExpr) bool {
 		fn, ok := typeutilCallee(info, c)
 		return ok && fn.Name() == "Update" && fn.Pkg() != nil && strings.Contains(fn.Pkg().Path(), "badger")
